@@ -185,8 +185,57 @@ class CallMixin:
         raise Unsupported(f"** of {star.ty}")
 
     # -- user functions ------------------------------------------------------------------------
+    def is_opaque(self, fi):
+        return any(isinstance(d, ast.Name) and d.id == "opaque" for d in fi.node.decorator_list)
+
+    def call_opaque(self, fi, env, st):
+        """Application of the uninterpreted function standing for an @opaque spec function."""
+        if not hasattr(self, "opaque_defs"):
+            self.opaque_defs = {}
+        names = list(fi.params)
+        sig = tuple(repr(env[p].ty) for p in names)
+        key = (fi.qualname, sig)
+        if key not in self.opaque_defs:
+            # translate the body once over symbolic arguments and a symbolic heap
+            ds = State(self)
+            ds.frame = fi
+            ds.spec = True
+            ds.alloc_base, ds.alloc_off = fresh("oalloc", I), 0
+            saved_init = self.init_heap
+            self.init_heap = {}
+            try:
+                formals = {p: Val(env[p].ty, fresh("o_" + p, sort_of(env[p].ty))) if env[p].ty not in (NONE, FN) and env[p].ty.name != "Tuple"
+                           else env[p] for p in names}
+                ds.env = dict(formals)
+                outs = self.exec_block(fi.body, ds)
+                rets = [o for o in outs if o.status == "return"]
+                if len(rets) != 1 or len(outs) != 1:
+                    raise Unsupported(f"opaque spec function {fi.qualname} must be a single return expression")
+                body = rets[0].ret
+                keys = sorted(self.init_heap.keys())
+                arrays = [self.init_heap[k] for k in keys]
+            finally:
+                self.init_heap = saved_init
+            fargs = [formals[p].t for p in names if z3.is_expr(formals[p].t)] + arrays
+            fn = z3.Function("spec_" + fi.node.name + "!" + str(len(self.opaque_defs)),
+                             *[a.sort() for a in fargs], sort_of(body.ty))
+            app = fn(*fargs)
+            bterm = to_sort_term(body, body.ty)
+            self.axioms.append(z3.ForAll(fargs, app == bterm, patterns=[app]) if fargs else app == bterm)
+            self.opaque_defs[key] = (fn, keys, body.ty, [(k, a.sort()) for k, a in zip(keys, arrays)])
+        fn, keys, rty, ksorts = self.opaque_defs[key]
+        actual = [env[p].t for p in names if z3.is_expr(env[p].t)]
+        for k, srt in ksorts:
+            actual.append(st.field(k, srt.range()))
+        return from_sort_term(fn(*actual), rty)
+
     def call_user(self, fi, args, kwargs, st, node=None):
         env = self.bind(fi, args, kwargs, st)
+        if st.spec and self.is_opaque(fi):
+            try:
+                return self.call_opaque(fi, env, st)
+            except Unsupported:
+                pass
         c = CONTRACTS.get(fi.qualname)
         if c is not None and fi.qualname != self.cur_fn_real() and not st.spec \
                 and fi.qualname not in getattr(self, "force_inline", ()):
@@ -329,6 +378,13 @@ class CallMixin:
 
     # -- contracts at call sites ---------------------------------------------------------------
     def call_contract(self, fi, c, env, st, node=None, recursive=False):
+        if st.ghost.get("__pure_ctx__") and c.get("functional") and set(c["modifies"]) <= {"alloc"}:
+            # pure context (comprehension condition): a functional contract `result == F(args)` stands for its value
+            penv0 = {}
+            for p, v in env.items():
+                ty = parse_type(c["params"][p]) if p in c["params"] else None
+                penv0[p] = from_sort_term(to_sort_term(v, ty), ty) if ty is not None and ty.name != "Tuple" else v
+            return self.spec_val(c["functional"], penv0, st, old=st)
         short = fi.qualname.split(".")[-1] if not fi.cls else ".".join(fi.qualname.split(".")[-2:])
         if c.get("trusted"):
             self.trusted_used.add(fi.qualname)
@@ -393,7 +449,9 @@ class CallMixin:
             for ce in conds or []:
                 r.pc.append(self.spec_truth(ce, penv, r, old=pre))
             st.spawned.append(r)
-        for e in c["ensures"]:
+        for k_, e in enumerate(c["ensures"]):
+            if k_ in c.get("internal_ensures", ()):
+                continue        # stated over the callee's own ghost state: not visible to callers
             st.assume(self.spec_truth(e, qenv, st, old=pre))
         return result
 
@@ -420,6 +478,8 @@ class CallMixin:
         r = fresh("r", I)
         st.assume(z3.ForAll([r], z3.Implies(r < alloc0, z3.Select(new, r) == z3.Select(arr, r)),
                             patterns=[z3.Select(new, r)]))
+        if not st.guards:
+            self.region_havoc[new.get_id()] = (arr, alloc0)
         st.set_field_array(k2, new)
         self.assume_closed(st, k2, new)
         if self.write_refs is not None:
@@ -503,6 +563,8 @@ class CallMixin:
         if src is None:
             raise EngineError("old()/entry() without a pre-state")
         o = src.copy()
+        o.ghost = dict(o.ghost)
+        o.ghost.update({k: v for k, v in st.ghost.items() if k.startswith("g:")})
         o.spec = True
         o.guards = []
         o.frame = st.frame
@@ -649,6 +711,8 @@ class CallMixin:
                     return Val(BOOL, z3.ForAll([t], z3.Implies(z3.And(tr(t), rng), body), patterns=[tr(t)]))
                 return Val(BOOL, z3.Exists([t], z3.And(rng, body)))
             coll = self.eval(it, st)
+            if coll.ty.name == "Opt":
+                coll = self._inner(coll)
             if coll.ty.name == "List":
                 i = fresh("q_i", I)
                 n = self.list_len(coll, st)
@@ -662,6 +726,17 @@ class CallMixin:
                 if kind == "all":
                     return Val(BOOL, z3.ForAll([i], z3.Implies(rng, body)))
                 return Val(BOOL, z3.Exists([i], z3.And(rng, body)))
+            if coll.ty.name == "Dict":
+                # quantification over the keys of a dict
+                kq = fresh("q_k", S)
+                st.env[g.target.id] = Val(STR, kq)
+                st.ghost = dict(st.ghost)
+                st.ghost["__qvars__"] = qv + [g.target.id]
+                rng = self.dict_has(coll, kq, st)
+                body = self._qbody(gen, g, st, kind)
+                if kind == "all":
+                    return Val(BOOL, z3.ForAll([kq], z3.Implies(rng, body)))
+                return Val(BOOL, z3.Exists([kq], z3.And(rng, body)))
             if coll.ty.name == "Tuple":
                 parts = []
                 for x in coll.t:
